@@ -66,7 +66,7 @@ func slashy(s string) bool {
 	return false
 }
 
-var dbPool = []string{"db", "telegraf", "my db", "dé", "a,b", "x=y", "\"q\"", "_internal", "db.with.dot", "a/b", "世界", "tab\there"}
+var dbPool = []string{"db", "telegraf", "my db", "dé", "a,b", "x=y", "\"q\"", "_internal", "db.with.dot", "a/b", "世界", "db-1_x"}
 var rpPool = []string{"rp", "autogen", "", "two words", "default", "rp,1", "ré"}
 var precNs = map[string]int64{"n": 1, "u": 1e3, "ms": 1e6, "s": 1e9}
 
